@@ -5,6 +5,7 @@
  *
  * args: set=alpha|universe|reflogs  maxlen=<k>  levels=0,6  conts=64,131072  rps=0,1  hp=0|1 (header patterns)
  *       shard=i/n  keep=<dir> (keep files + manifest.jsonl)  poison=<byte|-1>  slice=<n> (universe: every n-th)
+ *       order=rev (C14: configurations enumerated in reverse order, so every session follows different earlier sessions)
  *       twice=1 (C14: write every session twice, interleaved with the previous one)
  */
 #include <Vector/BLF.h>
@@ -323,6 +324,10 @@ int main(int argc, char ** argv) {
     long maxlen = args.num("maxlen", 2);
     long slice = args.num("slice", 1);
     bool twice = args.num("twice", 0) != 0;
+    if (args.str("order", "") == "rev") {
+        /* C14: the same sessions after different earlier activity in the process */
+        for (auto * l : {&levels, &conts, &rps, &hps}) std::reverse(l->begin(), l->end());
+    }
     bool readback = args.num("readback", 1) != 0;
     alloccap::poison = (int)args.num("poison", -1);
     alloccap::cap = (size_t)256 << 20;
